@@ -160,4 +160,45 @@ theorem recursive_terminates_partial (g : Grammar) (r : Nat → Nat) (k R : Nat)
         intro y hy
         exact hlc y (by simp [hcf, hy])
 
+/-- the same with the side condition decided by `advOk` -/
+theorem recursive_terminates_checked_partial (g : Grammar) (r : Nat → Nat) (k ka R : Nat)
+    (hr : leftRankOk g r k R = true) (hk : advOk g ka = true) (s : List Char) :
+    ∀ fuel id loc, id < g.length → (s.length + 1 - loc) * (R + 1) + r id < fuel →
+      ∀ a c, parse g s fuel id loc a c ≠ .hang :=
+  recursive_terminates_partial g r k R hr s (advancing_of_advOk g ka hk s)
+
+/-! ### non-vacuity -/
+
+section Example
+
+private def lf (k : Kind) : Node :=
+  { kind := k, skipWs := true, white := [' '], callPre := true, mayIdx := true, ignore := [],
+    acts := [], callDuringTry := false, nameLen := 1 }
+
+/-- `expr = Forward(); expr <<= ("(" + expr + ")") | "a"` — a genuinely recursive table:
+    0 "(", 1 ")", 2 "a", 3 And[0, 5, 1], 4 MatchFirst[3, 2], 5 Forward → 4 -/
+def recG : Grammar :=
+  [ lf (.lit1 '('), lf (.lit1 ')'), lf (.lit1 'a'),
+    { lf (.and [0, 5, 1]) with mayIdx := false }, { lf (.matchFirst [3, 2]) with mayIdx := false },
+    { lf (.forward (some 4)) with mayIdx := false } ]
+
+def recRank (i : Nat) : Nat := [0, 0, 0, 1, 2, 3].getD i 0
+
+/-- the cycle 5 → 4 → 3 → 5 passes through the consuming operand "(" of the And: the test accepts it
+    (and the acyclic tests reject the table) -/
+example : leftRankOk recG recRank 1 3 = true ∧ advOk recG 1 = true ∧ depthOk recG 50 5 = false := by decide
+
+/-- hence parsing from the Forward terminates on every input, with fuel `4·(len + 1) + 4` -/
+example (s : List Char) (a c : Bool) : parse recG s ((s.length + 1) * 4 + 4) 5 0 a c ≠ .hang :=
+  recursive_terminates_checked_partial recG recRank 1 1 3 (by decide) (by decide) s _ 5 0 (by decide)
+    (by simp [recRank]) a c
+
+/-- a left-recursive table (`expr <<= expr + "a" | "a"`) is rejected for the rank above — and for every rank, since
+    the And's first operand is the Forward itself -/
+example : leftRankOk [ lf (.lit1 'a'), { lf (.and [3, 0]) with mayIdx := false },
+    { lf (.matchFirst [1, 0]) with mayIdx := false }, { lf (.forward (some 2)) with mayIdx := false } ]
+    (fun i => [0, 1, 2, 3].getD i 0) 1 3 = false := by decide
+
+end Example
+
 end PP.Parse
